@@ -1,7 +1,7 @@
 (* C16 - Cascade replicas: source resolution terminates, never self, never quorum.
    Theorems only; model Procs/Repair.v (findBestStreamFrom, repairCascadeNode). *)
 From Coq Require Import ZArith NArith Bool List.
-From Mysync Require Import Gtid.Interval Gtid.GtidSet Base.Prog Base.ProgFacts Base.Config Procs.NodeOps Procs.ActiveNodes Procs.Switchover Procs.Repair Proofs.RepairProofs Proofs.PromotedProofs Procs.MgrQuorum Proofs.MgrQuorumProofs.
+From Mysync Require Import Gtid.Interval Gtid.GtidSet Base.Prog Base.ProgFacts Base.Config Procs.NodeOps Procs.ActiveNodes Procs.Switchover Procs.Repair Procs.Manager Proofs.RepairProofs Proofs.PromotedProofs Procs.MgrQuorum Proofs.MgrQuorumProofs.
 Import ListNotations.
 Open Scope Z_scope.
 
@@ -65,3 +65,15 @@ Theorem C16_manager_quorum_counts_ha_hosts_only : forall ha db dcs,
   let '(w, v) := quorum_counts ha db dcs 0 0 in (0 <= v <= w /\ w <= Z.of_nat (length ha))%Z.
 Proof. exact manager_quorum_counts_at_most_ha. Qed.
 Print Assumptions C16_manager_quorum_counts_ha_hosts_only.
+
+(* ... and the HA counts behind the failover / switchover approval (alive replicas within the published list, "every
+   other HA node still replicates", the dubious hosts): an entry that says "cascade replica" contributes nothing to any
+   of them - also when that host is (still) named in the list *)
+Theorem C16_cascade_entries_contribute_nothing_to_the_ha_counts : forall h ns cs nodes,
+  ns_is_cascade ns = true ->
+  count_ha_nodes ((h, ns) :: cs) = count_ha_nodes cs /\
+  count_running_ha_slaves ((h, ns) :: cs) = count_running_ha_slaves cs /\
+  dubious_ha_hosts ((h, ns) :: cs) = dubious_ha_hosts cs /\
+  count_alive_ha_slaves_within (h :: nodes) ((h, ns) :: cs) = count_alive_ha_slaves_within nodes ((h, ns) :: cs).
+Proof. exact cascade_entries_contribute_nothing. Qed.
+Print Assumptions C16_cascade_entries_contribute_nothing_to_the_ha_counts.
